@@ -3,10 +3,12 @@
 -/
 import Deepali.Drv.GridOps
 import Deepali.Drv.Sample
+import Deepali.Drv.Flow
+import Deepali.Drv.Affine
 namespace Deepali.Drv
 open Deepali.Proto
 
 def allHandlers : List (String × Reader String) :=
-  gridHandlers ++ sampleHandlers
+  gridHandlers ++ sampleHandlers ++ flowHandlers ++ affineHandlers
 
 end Deepali.Drv
